@@ -123,9 +123,11 @@ def write_nquads(quads, style=None):
 _PN_OK = set("abcdefghijklmnopqrstuvwxyzABCDEFGHIJKLMNOPQRSTUVWXYZ0123456789_")
 
 
-def _ttl_string(lex, st):
+def _ttl_string(lex, st, n3=False):
     has_nl = "\n" in lex or "\r" in lex
     forms = ['"""', "'''"] if has_nl and st.random() < 0.7 else ['"', "'", '"""', "'''"]
+    if n3:
+        forms = [f for f in forms if f[0] == '"']  # single-quoted strings are Turtle, not N3
     q = st.choice(forms)
     out = []
     for ch in lex:
@@ -154,9 +156,10 @@ def _ttl_string(lex, st):
 
 
 class _Ttl:
-    def __init__(self, st, quads, trig):
+    def __init__(self, st, quads, trig, n3=False):
         self.st = st
         self.trig = trig
+        self.n3 = n3
         self.prefixes = {}  # ns -> prefix
         self.base = None
         nss = []
@@ -182,9 +185,9 @@ class _Ttl:
         st = self.st
         lines = []
         if self.base:
-            lines.append(st.choice(["@base <%s> .", "BASE <%s>", "base <%s>"]) % self.base)
+            lines.append((st.choice(["@base <%s> .", "BASE <%s>", "base <%s>"]) if not self.n3 else "@base <%s> .") % self.base)
         for ns, p in self.prefixes.items():
-            lines.append(st.choice(["@prefix %s: <%s> .", "PREFIX %s: <%s>", "prefix %s: <%s>", "@prefix  %s:\t<%s>."]) % (p, ns))
+            lines.append((st.choice(["@prefix %s: <%s> .", "PREFIX %s: <%s>", "prefix %s: <%s>", "@prefix  %s:\t<%s>."]) if not self.n3 else "@prefix %s: <%s> .") % (p, ns))
         return lines
 
     def iri(self, iri, predicate=False):
@@ -217,7 +220,7 @@ class _Ttl:
             return lex
         if dt == XSD + "double" and st.random() < 0.6 and _is_double(lex):
             return lex
-        s = _ttl_string(lex, st)
+        s = _ttl_string(lex, st, self.n3)
         if lang:
             return s + "@" + lang
         if dt:
@@ -285,6 +288,27 @@ def write_turtle(quads, style=None):
     lines = w.header() + [""] + w.block([(s, p, o) for s, p, o, _ in quads])
     eol = st.choice(["\n", "\n", "\r\n"])
     return eol.join(lines) + eol
+
+
+def write_n3(quads, style=None):
+    """Turtle spelling plus (N3 only) a quoted formula { ... } placed between the statements: labels used before and after it
+    must still denote the same nodes"""
+    st = _st(style)
+    if any(g is not None for _, _, _, g in quads):
+        raise ValueError("named graph in N3")
+    w = _Ttl(st, quads, False, n3=True)
+    ts = [(s, p, o) for s, p, o, _ in quads]
+    cut = st.randint(0, len(ts)) if style is not None else len(ts) // 2
+    formula = ["<http://ex.org/formula-holder> <http://ex.org/says> { <http://ex.org/fa> <http://ex.org/fb> _:inner . _:inner <http://ex.org/fc> \"f\" } ."]
+    lines = w.header() + [""]
+    # statements one per triple so that the formula really sits between uses of a label
+    for s, p, o in ts[:cut]:
+        lines.append(f"{w.term(s)} {w.term(p, True)} {w.term(o)} .")
+    if style is None or st.random() < 0.7:
+        lines += formula
+    for s, p, o in ts[cut:]:
+        lines.append(f"{w.term(s)} {w.term(p, True)} {w.term(o)} .")
+    return "\n".join(lines) + "\n"
 
 
 def write_trig(quads, style=None):
@@ -355,7 +379,11 @@ def write_rdfxml(quads, style=None):
             dt = o[3] if len(o) > 3 else None
             attrs = (f' xml:lang="{lang}"' if lang else "") + (f' rdf:datatype="{_xml_esc(dt, True)}"' if dt else "")
             body = f"<{tag}{attrs}>{_xml_esc(o[1])}</p{n}:{local}>"
-        out.append(f"  <rdf:Description {about}>{body}</rdf:Description>")
+        base = ""
+        if style is not None and _st(style).random() < 0.5:
+            # an xml:base that changes from element to element: absolute IRIs and rdf:nodeID are unaffected by it
+            base = ' xml:base="http://base%d.example/dir/"' % _st(style).randint(1, 3)
+        out.append(f"  <rdf:Description{base} {about}>{body}</rdf:Description>")
     out.append("</rdf:RDF>")
     return "\n".join(out) + "\n"
 
@@ -468,7 +496,7 @@ WRITERS = {
     "nt": write_nt,
     "nquads": write_nquads,
     "turtle": write_turtle,
-    "n3": write_turtle,
+    "n3": write_n3,
     "trig": write_trig,
     "xml": write_rdfxml,
     "trix": write_trix,
